@@ -171,11 +171,11 @@ def check_call(x, n, m, c, d, dtype, fx, exp):
     du = np.asarray(du)
     if du.shape != (N,):
         return ('length', 'n=%d m=%d: output shape %r for an input of length %d' % (n, m, du.shape, N)), None
-    # the same request with numpy integers for n and m: the same output, bit for bit
+    # the same request with numpy integers for n and m and the grid as a list of Python numbers: the same output, bit for bit
     with warnings.catch_warnings(), np.errstate(all='ignore'):
         warnings.simplefilter('ignore')
         try:
-            du2 = np.asarray(fd_derivative(fx, xa, np.int64(n), np.int32(m)))
+            du2 = np.asarray(fd_derivative(fx, xa.tolist(), np.int64(n), np.int32(m)))      # ... and the grid as a plain list
         except Exception as e:
             return ('numpy-integer-arguments:raised-%s' % type(e).__name__,
                     'n=%d m=%d N=%d as numpy integers: fd_derivative raised %s: %s' % (n, m, N, type(e).__name__, e)), None
